@@ -3,8 +3,9 @@
 package lib
 
 // Stand-alone detector oracle for C10.  The detector (src/*.rs) cannot be built here (no crates), so
-// the items that decide what happens to a StationToDetector message are SLICED OUT of the current
-// src/sessions.rs of the tree under test at run time, surrounded by stubs for the few external types
+// the items that decide what happens to a StationToDetector message and to a flow that is looked up
+// afterwards (conversion, dispatch, session map, sweep of stale sessions, tag of a flow) are SLICED OUT of
+// the current src/sessions.rs and src/flow_tracker.rs of the tree under test at run time, surrounded by stubs for the few external types
 // they mention (the generated protobuf message with optional fields and default-returning getters,
 // pnet's IpNextHeaderProtocol, the clock, the debug! macro), and compiled with rustc.  The Lean model
 // of the detector is differential-tested against this binary, i.e. against the detector's own source.
